@@ -382,7 +382,15 @@ def rules(ctx: Ctx) -> None:
             if not (isinstance(n, ast.Subscript) and isinstance(n.ctx, ast.Load) and isinstance(n.value, ast.Attribute) and n.value.attr in VIEWS):
                 continue
             recv_t = prog.infer(n.value.value, f)
-            if not ("Graph" in repr(recv_t) or u(n.value.value).endswith("graph") or u(n.value.value) in ("g", "G")):
+            def _graphish(v: ast.AST) -> bool:
+                if isinstance(v, ast.Attribute) and v.attr.endswith("graph"):
+                    return True
+                if isinstance(v, ast.Call):
+                    fn_txt = u(v.func)
+                    return fn_txt.split(".")[-1] in ("DiGraph", "Graph", "MultiDiGraph", "compose", "compose_all", "relabel_nodes", "subgraph", "edge_subgraph", "copy", "reverse")
+                return False
+
+            if not ("Graph" in repr(recv_t) or u(n.value.value).endswith("graph") or any(_graphish(v) for v in prog.value_sources(f, n.value.value))):
                 continue
             n_view += 1
             G = u(n.value.value)
